@@ -30,13 +30,14 @@ REQUIRED = {"all": ["len_lt5", "len_eq5", "len_eq6", "net_negative", "net_zero",
 LMAX = {"quick": 11, "thorough": 13}
 NRANDOM = {"quick": 1500, "thorough": 20000}
 NLONG = {"quick": 6, "thorough": 40}
-ANCHORS = ["GKKKKG", "KEEEEK", "EKEKEKEKEKEKEKEKEKEKEKEKEKEKEKEKEKEKEKEKEKEKEKEKEK",
+ANCHORS = ["SEEEEEEKEEEEEEEEEEEE", "PLDKACAEDDDEEDEEEEEE", "EKKKKEE", "EKKKGE", "EEEEEEEEEEEEEEEEEEKG", "GKKKKG", "KEEEEK", "EKEKEKEKEKEKEKEKEKEKEKEKEKEKEKEKEKEKEKEKEKEKEKEKEK",
            "EEEEEEEEEEEEEEEEEEEEEEEEEKKKKKKKKKKKKKKKKKKKKKKKKK", "G", "K", "KKKKK", "KKKKKK", "EKGRD"]
 
 
 def cases(tier, seed):
     for a in ANCHORS:
         yield {"k": "seq", "s": a}
+        yield {"k": "seq", "s": a, "kappa_first": True}
     for L in range(1, LMAX[tier] + 1):
         for pat in gen.all_patterns(L):
             yield {"k": "pat", "p": M.pat_str(pat)}
@@ -67,6 +68,12 @@ def judge(case, rep, S):
         if len(seq) <= 60:
             obj.get_kappa()                 # delta-max cached before delta is asked for
             rep.cnt("kappa_before_delta")
+    if case.get("kappa_first"):
+        obj.get_kappa()
+        obj.get_deltaMax()
+        rep.cnt("kappa_before_delta")
+    if False:
+        pass
         SALT.salt(S, obj, seq, gen.sub_rng(0, "salt", seq), rep, cheap=len(seq) > 150)
     got = obj.get_delta()
     again = obj.get_delta()
